@@ -26,6 +26,13 @@ SHARDS = {"quick": 1, "thorough": 1}  # one shard; it runs 16 session subprocess
 BUDGET = {"quick": 100.0, "thorough": 900.0}  # ceilings (heavily loaded machine); typical use is 15-25 s / 2-4 min
 WORKERS = 24  # sessions mostly sleep (alarms, holds): more children than cores
 REQUIRE = {
+    "MID_shell-out_checked": 30,
+    "MID_suspend_checked": 3,
+    "ORD_input_events_after_shell_out": 50,
+    "fd0_sessions": 60,
+    "fd0_sessions:tornado": 8,
+    "fd0_sessions_ended_by_an_exception": 20,
+    "fd0_rerun_sessions": 10,
     "SIZE_bursts_settled": 10,
     "SIZE_resize_and_key_in_one_batch": 4,
     "SIZE_widget_sizes_checked": 200,
@@ -104,7 +111,7 @@ RULE = (
     "tornado/twisted/trio/zmq, screen with or without hook_event_loop, pop_ups on/off, mouse tracking/bracketed paste/"
     "focus reporting on or off, initial signal dispositions default | application functions | SIG_IGN (all four or one signal)) x scripted session (keys, SGR "
     "mouse presses, focus/paste sequences, SIGWINCH with a real size change, 2 alarms, watch_pipe write, watch_file "
-    "write, pop-up open/close, resize bursts (2-3 real size changes in a row) followed by a key written inside get_input()'s resize throttle, stty changes of the terminal between two runs (iflag/lflag bits, erase/kill/eof, intr/quit/start/stop/susp), MainLoop.run() called two or three times on the same MainLoop/event-loop/screen objects (every loop but twisted; each run ended by a fault kind or the scripted exit and judged separately), several keys in one write whose first key makes a callback replace loop.widget by a page of other selectability / other handled keys, keys split over two writes (ESC|[A, a split UTF-8 char, a split SGR mouse report, a split f5) "
+    "write, pop-up open/close, shell-out (screen.stop() ... screen.start() inside a key handler / alarm callback) and SIGTSTP/SIGCONT mid-session, the terminal on file descriptors 0/1, resize bursts (2-3 real size changes in a row) followed by a key written inside get_input()'s resize throttle, stty changes of the terminal between two runs (iflag/lflag bits, erase/kill/eof, intr/quit/start/stop/susp), MainLoop.run() called two or three times on the same MainLoop/event-loop/screen objects (every loop but twisted; each run ended by a fault kind or the scripted exit and judged separately), several keys in one write whose first key makes a callback replace loop.widget by a page of other selectability / other handled keys, keys split over two writes (ESC|[A, a split UTF-8 char, a split SGR mouse report, a split f5) "
     "with the second write made after the loop read the first and the loop then held waiting > complete_wait; fixed orders + "
     "seeded shuffles in thorough) x injection (none, or ExitMainLoop / Boom(Exception) / Halt(BaseException) / SystemExit / exception groups (of one Boom, one ExitMainLoop, one BaseException, two members, nested one-in-one) "
     "at the k-th invocation of one of the 8 callback sites, enumerated from the fault-free run of the same "
@@ -153,6 +160,7 @@ TOK = {
     "focus": ("\x1b[I", ["focus in"]),
     "paste": ("\x1b[200~xy\x1b[201~", ["begin paste", "x", "y", "end paste"]),
     "Q": ("Q", ["Q"]),
+    "sh": ("S", ["S"]),  # unhandled_input('S') shells out: loop.screen.stop(); ...; loop.screen.start()
     # several keys in ONE write; the first one swaps loop.widget, the rest must follow the new topmost widget
     "nab": ("nab", ["n", "a", "b"]),
     "sbt": ("sbt", ["s", "b", "t"]),
@@ -173,6 +181,9 @@ SPLIT = {
 }
 # resize bursts: the terminal changes size 2-3 times in a row, then a key is written without waiting for the redraw
 BURSTS = {"@burst2": ([[50, 12], [60, 14]], "a"), "@burst3": ([[44, 11], [52, 13], [36, 9]], "x")}
+# shell-out from a key handler and from an alarm callback (and ctrl-z / fg where the app's own SIGTSTP handler allows it),
+# with input, mouse and a resize afterwards
+SCRIPT_K = ["@shalarm", "a", "sh", "up", "m1", "@alarm0", "bz", "@suspend", "x", "@winch", "a", "sh", "m3", "@alarm1", "a", "Q"]
 SCRIPT_Z = ["a", "@burst2", "up", "m1", "@alarm0", "@burst3", "bz", "m3", "@alarm1", "@winch", "a", "Q"]
 COMPLETE_WAIT = 0.4  # generous, so that a slow driver thread does not let a split key time out for real
 HOLD = COMPLETE_WAIT + 0.12  # the loop is kept waiting this long after the last split's first fragment was read
@@ -191,6 +202,14 @@ def build_script(tokens, cfg):
         if t == "paste" and not cfg["paste"]:
             continue
         if t in ("@pipe", "@file") and not cfg["hook"]:
+            continue
+        if t == "@shalarm":
+            continue  # not a step: the first harness alarm's callback shells out (spec["shell_in_alarm0"])
+        if t == "@suspend":
+            # only when the application installed its own SIGTSTP handler: the harness's one blocks the main thread until SIGCONT
+            # has been delivered (stand-in for the process really being stopped) instead of stopping the whole child
+            if cfg["handlers"] == "custom":
+                steps.append(["suspend", None, t])
             continue
         if (t in SPLIT or t == "@hold") and not cfg["hook"]:
             continue  # _run_screen_event_loop never shows an incomplete read to the filter: a split cannot be observed
@@ -226,6 +245,8 @@ def make_spec(cfg, tokens, inject=None):
         "repo": core.REPO,
         "loop": cfg["loop"],
         "hook": cfg["hook"],
+        "fd0": bool(cfg.get("fd0")),
+        "shell_in_alarm0": "@shalarm" in tokens,
         "pop_ups": cfg["pop_ups"],
         "mouse": cfg["mouse"],
         "paste": cfg["paste"],
@@ -244,7 +265,7 @@ def make_spec(cfg, tokens, inject=None):
 
 
 def cfg_of(spec):
-    return {k: spec[k] for k in ("loop", "hook", "pop_ups", "mouse", "paste", "focus", "handlers")}
+    return {k: spec.get(k) for k in ("loop", "hook", "pop_ups", "mouse", "paste", "focus", "handlers", "fd0")}
 
 
 def cfg_tag(spec):
@@ -359,7 +380,8 @@ def judge(spec, res, ctx, base_rst=None):  # noqa: C901, PLR0912, PLR0915
     top_at_alarm = {}  # id(alarm event) -> page that is loop.widget when that alarm fires
     swapped_in_batch = False  # a swap happened while later keys of the same batch were still undelivered
     pending = []  # input events (already filtered) still to be delivered from the last filter call
-    events = [e for e in log if e["site"] in ("filter", "keypress", "mouse", "unhandled", "ret", "inject", "alarm", "pipe", "file")]
+    events = [e for e in log if e["site"] in ("filter", "keypress", "mouse", "unhandled", "ret", "inject", "alarm", "pipe", "file", "shell_end", "resumed")]
+    shelled_out = False
     ord_broken = False
     cur = None  # input event being delivered
     cur_unh = None
@@ -368,6 +390,9 @@ def judge(spec, res, ctx, base_rst=None):  # noqa: C901, PLR0912, PLR0915
         s = e["site"]
         if s == "inject":
             break
+        if s in ("shell_end", "resumed"):
+            shelled_out = True
+            continue
         if s == "filter":
             if pending or stage in ("need-unhandled",):
                 add("ORD", "next-filter-before-batch-delivered", f"filter called while {pending!r}/{stage} undelivered")
@@ -426,6 +451,8 @@ def judge(spec, res, ctx, base_rst=None):  # noqa: C901, PLR0912, PLR0915
             if e["w"] == "P":
                 ctx.count("popup_routed_events")
             ctx.count("ORD_input_events_checked")
+            if shelled_out:
+                ctx.count("ORD_input_events_after_shell_out")
             if swapped_in_batch:
                 ctx.count("ORD_same_batch_after_swap_checked")
                 ctx.count(f"ORD_same_batch_after_swap_checked:to-{top}")
@@ -545,15 +572,35 @@ def judge(spec, res, ctx, base_rst=None):  # noqa: C901, PLR0912, PLR0915
     limit = inj_pos if reached else len(log)
     vt = VT(spec["size"][0], spec["size"][1])
     vt_page_at = {}
+    vt_stopped_at = set()
     vt_state_at = {}  # log index of alarm -> state number readable on the terminal just before it
     for idx in range(limit):
         e = log[idx]
         if e["site"] == "flush":
             vt.feed(e["data"].encode("latin-1"))
-        elif e["site"] == "step" and e["kind"] == "winch":
-            sz = spec["script"][e["n"]][1]
-            vt.resize(sz[0], sz[1])
+        elif e["site"] == "resized":
+            vt.resize(e["size"][0], e["size"][1])
+        elif e["site"] in ("shell_mid", "suspended"):
+            # between screen.stop() and screen.start() (shell-out from a callback, ctrl-z) the terminal belongs to someone else
+            what = "shell-out" if e["site"] == "shell_mid" else "suspend"
+            ctx.count(f"MID_{what}_checked")
+            badm = []
+            if vt.alt_screen:
+                badm.append("alt-screen")
+            if not vt.cursor_visible:
+                badm.append("cursor-hidden")
+            badm += [f"mode{m}" for m in (1000, 1002, 1006, 2004, 1004) if m in vt.modes]
+            if not e["termios_restored"]:
+                badm.append("termios")
+            if e["started"]:
+                badm.append("screen-still-started")
+            if e.get("handlers_restored") is False:
+                badm.append("signal-handlers")
+            for b in badm:
+                add_rst(f"{what}|between-stop-and-start:{b}", f"while the screen is stopped inside the session ({what}): {b}")
         elif e["site"] == "alarm":
+            if not vt.alt_screen and any(st_[0] == "suspend" for st_ in spec["script"]):
+                vt_stopped_at.add(idx)
             m = re.search(r"[MNT]S=(\d+)\.", vt.row_text(0)) if vt.alt_screen else None
             vt_state_at[idx] = int(m.group(1)) if m else None
             vt_page_at[idx] = vt.row_text(0)[:1] if m else None
@@ -579,7 +626,16 @@ def judge(spec, res, ctx, base_rst=None):  # noqa: C901, PLR0912, PLR0915
                     add("RDW", f"no-redraw-between-{log[ie]['site']}-and-later-alarm", f"state {s_after} set by {log[ie]['site']} k={log[ie]['k']} was not rendered before alarm n={a['n']} due {a['due'] - log[ie]['t']:.3f}s later")
                 if s_after > need:
                     need, need_from = s_after, log[ie]["site"]
-        if need >= 0:
+        restarted = [log[j]["t"] for j in range(ia) if log[j]["site"] in ("shell_end", "suspended", "resumed") and "t" in log[j]]
+        if need >= 0 and ia in vt_stopped_at:
+            # the alarm fired while the screen was stopped (ctrl-z not yet followed by fg): nothing of urwid's is on the
+            # terminal, which the MID clause checks
+            ctx.count("RDW_vt_skipped_screen_stopped")
+        elif need >= 0 and restarted and a["due"] - max(restarted) < 0.05:
+            # the screen was stopped and started again (shell-out, ctrl-z) less than 50 ms before this alarm was due: the
+            # repaint that follows a restart need not have happened yet
+            ctx.count("RDW_vt_skipped_screen_just_restarted")
+        elif need >= 0:
             ctx.count("RDW_vt_checked")
             shown = vt_state_at.get(ia)
             if shown is None or shown < need:
@@ -743,7 +799,7 @@ def _final_exit(log):
 
 
 def base_cfg(**kw):
-    c = {"loop": "select", "hook": True, "pop_ups": False, "mouse": True, "paste": True, "focus": True, "handlers": "default"}
+    c = {"loop": "select", "hook": True, "pop_ups": False, "mouse": True, "paste": True, "focus": True, "handlers": "default", "fd0": False}
     c.update(kw)
     return c
 
@@ -773,6 +829,12 @@ def plan_configs(ctx):
         plans.append((base_cfg(hook=False, handlers="ign"), SCRIPT_W, "min"))
         # resize bursts followed by a key inside get_input()'s resize throttle (screen without external loop support), and
         # the same bursts on hooked screens
+        # the shell-out idiom (screen.stop() ... screen.start() inside a callback), ctrl-z / fg where the application's own
+        # SIGTSTP handler keeps the process running; and the terminal on file descriptors 0 / 1 (Screen()'s defaults)
+        for lp in LOOPS:
+            plans.append((base_cfg(loop=lp, handlers="custom" if lp in ("select", "asyncio", "twisted") else "default", fd0=lp in ("asyncio", "zmq")), SCRIPT_K, "min"))
+            plans.append((base_cfg(loop=lp, fd0=True), SCRIPT_S, "few"))
+        plans.append((base_cfg(hook=False, handlers="custom", fd0=True), SCRIPT_K, "min"))
         plans.append((base_cfg(hook=False), SCRIPT_Z, "few"))
         plans.append((base_cfg(hook=False, pop_ups=True), SCRIPT_Z, "min"))
         for lp in ("select", "asyncio", "trio"):
@@ -801,6 +863,13 @@ def plan_configs(ctx):
     plans.append((base_cfg(hook=False, handlers="custom", paste=False), SCRIPT_B, "ends"))
     plans.append((base_cfg(hook=False), SCRIPT_W, "full"))
     plans.append((base_cfg(hook=False), SCRIPT_Z, "full"))
+    for lp in LOOPS:
+        plans.append((base_cfg(loop=lp), SCRIPT_K, "full"))
+        plans.append((base_cfg(loop=lp, handlers="custom", fd0=True), SCRIPT_K, "ends"))
+        plans.append((base_cfg(loop=lp, fd0=True), SCRIPT_S, "full"))
+        plans.append((base_cfg(loop=lp, fd0=True, pop_ups=True), SCRIPT_A, "ends"))
+    plans.append((base_cfg(hook=False, handlers="custom"), SCRIPT_K, "full"))
+    plans.append((base_cfg(hook=False, fd0=True), SCRIPT_K, "ends"))
     plans.append((base_cfg(hook=False, pop_ups=True, handlers="custom"), SCRIPT_Z, "ends"))
     for lp in LOOPS:
         plans.append((base_cfg(loop=lp), SCRIPT_Z, "ends"))
@@ -887,6 +956,13 @@ def evaluate(ctx, spec, res, base_rst=None):
         ctx.count(f"ign_handler_sessions:{spec['handlers']}")
     if spec["pop_ups"]:
         ctx.count("popup_sessions")
+    if spec.get("fd0"):
+        ctx.count("fd0_sessions")
+        ctx.count(f"fd0_sessions:{spec['loop']}")
+        if spec.get("inject") and spec["inject"]["kind"] not in ("exit",):
+            ctx.count("fd0_sessions_ended_by_an_exception")
+        if spec.get("more_runs"):
+            ctx.count("fd0_rerun_sessions")
     if not spec.get("inject"):
         ctx.count("sessions_faultfree")
     for site, n in res["counts"].items():
@@ -1052,6 +1128,7 @@ R2_POINTS = {"filter": 1, "keypress": 0, "mouse": 0, "unhandled": 0, "alarm": 0,
 def rerun_specs(ctx):
     """sessions that call MainLoop.run() two or three times on the same MainLoop / event loop / screen objects"""
     cfgs = [base_cfg(loop=lp) for lp in RERUN_LOOPS] + [base_cfg(hook=False)]
+    cfgs += [base_cfg(loop=lp, fd0=True) for lp in (("tornado", "select") if ctx.quick else RERUN_LOOPS)]  # the terminal is fd 0 / 1
     if not ctx.quick:
         cfgs += [base_cfg(loop=lp, pop_ups=True, handlers="custom") for lp in RERUN_LOOPS]
     combos = []  # (first run fault, second run fault)  fault = None (scripted exit) | (site, kind)
@@ -1147,7 +1224,7 @@ def _run(ctx, runner):
         # the other loops one kind per point in rotation (quick); thorough: every kind at both ends of every site, all
         # points on SCRIPT_S
         if ctx.quick:
-            gpts = injection_points(res["counts"], "first") if (toks is SCRIPT_S or toks is SCRIPT_A and not cfg["hook"]) else []
+            gpts = injection_points(res["counts"], "first") if ((toks is SCRIPT_S or toks is SCRIPT_A and not cfg["hook"]) and not cfg["fd0"]) else []
             few = set(injection_points(res["counts"], "few"))
             for n, (site, k) in enumerate(gpts):
                 for kind in GROUP_KINDS if (cfg["loop"] == "trio" and (site, k) in few) else (GROUP_KINDS[n % len(GROUP_KINDS)],):
